@@ -14,6 +14,10 @@ NA = {
 }
 
 CHECKS = {
+ "C15": dict(engine="SEQ", category="fault_enumeration", design="§4 C15",
+   technique="deterministic simulation with stream fault injection: every built-in codec × source/destination kind over scripted readers/writers (chunking, zero-length reads, data+EOF, read/write error at every offset, close accounting) against byte-exact and round-trip oracles; sweep of every fault offset",
+   text="A bytes.Buffer never short-reads or fails mid-stream. Each run puts one codec call (JSON, XML, YAML, text, byte stream; every supported source and destination kind; closing option on/off) over a scripted stream or sink whose chunking, zero-length reads, data-together-with-EOF and the single injected read or write error are drawn from the tape; oracles: byte-exactness for the text and byte-stream codecs under any chunking, consume(produce(v)) == v for the structured codecs over a conservative value domain, an injected error is returned and never becomes a shorter success, the stream is closed iff the option was requested (a closable source payload always), unsupported/nil/typed-nil destinations give an error and never a panic, no aliasing between two consecutive results. The thorough tier sweeps every read-error offset, write-error offset and zero-length-read position for each (codec, kind, content class).",
+   note="Pre-populated destinations of the structured codecs are checked for no-panic only (the decoders merge by design); json.Number compared as a literal; three yaml.v3 dependency behaviours are recorded as known findings."),
  "C14": dict(engine="K1", category="exploration", design="§4 C14",
    technique="deterministic simulation of a two-party exchange: real client auth writers and real server authenticators joined by the in-process wire bridge in a synctest bubble; credential placements and compositions from the tape; token-in-body streamed in chunks",
    text="The client's auth writers and the server's authenticators are never joined by the unit tests. Each run registers one scheme through the real security.* constructor (plain or context-aware) around a recording callback, builds a secured operation with required scopes, and performs one client call through the wire bridge whose credentials come from a tape-drawn composition of the real client writers placed as operation auth, default auth, both, or default with a pre-set Authorization header, plus bearer tokens in query and in a streamed urlencoded/multipart form body. A model of the effective transmitted credential (last writer wins per header, bearer precedence header>query>form, default-auth rule) predicts the callback's arguments, applies/not-applies, the principal identity seen by authenticator result and authorizer, status and the basic-auth realm challenge. Mostly seeded input sampling through a two-party system (said plainly).",
